@@ -235,6 +235,9 @@ def ROUNDUP(number, digits):
     if digits < 0:
         # 10**digits is not exact (300000 * 10**-5 is 3.0000000000000004): divide by the exact unit instead
         unit = 10**-digits
+        if isinstance(number, int) and isinstance(digits, int) and digits > -400:
+            # whole numbers stay exact (beyond 2^53 the float quotient would drop the units)
+            return sign * -(-abs(number) // unit) * unit
         return sign * math.ceil(abs(number) / float(unit)) * unit
     return sign * (math.ceil(abs(number) * 10**digits)) / 10**digits
 
@@ -252,6 +255,8 @@ def ROUNDDOWN(number, digits):
         return 0
     if digits < 0:
         unit = 10**-digits
+        if isinstance(number, int) and isinstance(digits, int):
+            return sign * (abs(number) // unit) * unit
         return sign * math.floor(abs(number) / float(unit)) * unit
     return sign * (math.floor(abs(number) * 10**digits)) / 10**digits
 
@@ -332,6 +337,10 @@ def QUOTIENT(numerator, denominator):
         return error.VALUE
     if denominator == 0:
         return error.DIV_ZERO
+    if isinstance(numerator, int) and isinstance(denominator, int):
+        # whole numbers divide exactly (the float quotient of 9007199254740993 by 1 is ...992)
+        quotient = abs(numerator) // abs(denominator)
+        return quotient if (numerator < 0) == (denominator < 0) else -quotient
     return int(numerator / denominator)
 
 
